@@ -2432,10 +2432,21 @@ public:
     {
         TLX_BTREE_ASSERT(empty());
 
-        stats_.size = iend - ibegin;
-
-        // calculate number of leaves needed, round up.
+        // calculate number of leaves needed, round up. A tree without
+        // duplicates keeps the first entry of every run of equal keys, as
+        // insert(first, last) does.
         size_t num_items = iend - ibegin;
+        if (!allow_duplicates)
+        {
+            num_items = 0;
+            for (Iterator i = ibegin; i != iend; ++i)
+            {
+                if (i == ibegin || key_less(key_of_value::get(*(i - 1)),
+                                            key_of_value::get(*i)))
+                    ++num_items;
+            }
+        }
+        stats_.size = num_items;
         size_t num_leaves = (num_items + leaf_slotmax - 1) / leaf_slotmax;
 
         TLX_BTREE_PRINT("BTree::bulk_load, level 0: "
@@ -2454,7 +2465,14 @@ public:
             // switch leaf->set_slot().
             leaf->slotuse = static_cast<int>(num_items / (num_leaves - i));
             for (size_t s = 0; s < leaf->slotuse; ++s, ++it)
+            {
+                // skip the further entries of a run of equal keys
+                while (!allow_duplicates && it != ibegin &&
+                       !key_less(key_of_value::get(*(it - 1)),
+                                 key_of_value::get(*it)))
+                    ++it;
                 leaf->set_slot(s, *it);
+            }
 
             if (tail_leaf_ != nullptr)
             {
@@ -2470,7 +2488,7 @@ public:
             num_items -= leaf->slotuse;
         }
 
-        TLX_BTREE_ASSERT(it == iend && num_items == 0);
+        TLX_BTREE_ASSERT(num_items == 0);
 
         // if the btree is so small to fit into one leaf, then we're done.
         if (head_leaf_ == tail_leaf_)
